@@ -66,6 +66,12 @@ def setup(ctx):
             raise SystemExit("dbsim: independent reader/writer does not reproduce real file %s" % name)
         with open(os.path.join(REAL_DIR, name), "wb") as f:
             f.write(data)
+        # the index range the generated code compiles into its module definition (python-native only)
+        code = runner.read_file(os.path.join(root, job["outputs"]["oc"])) if "oc" in job["outputs"] else None
+        m = re.search(rb"(\d+),\s*/\* first_index \*/\s*(\d+)\s*/\* next_index \*/", code or b"")
+        if m:
+            with open(os.path.join(REAL_DIR, name + ".range"), "w") as f:
+                f.write("%d %d\n" % (int(m.group(1)), int(m.group(2))))
         common.cleanup(root)
 
 
@@ -351,6 +357,11 @@ def gen_c20(ctx):
                 ops.append({"op": "uniq", "seed": n, "even_empty": True})
         ops += [{"op": "uniq", "seed": n, "even_empty": True}, {"op": "verify", "sweep": False}, {"op": "uniq", "seed": n + 1, "even_empty": True}]
         plans.append({"id": i, "focus": "C20", "build": "san", "universe": u, "faults": {}, "ops": ops})
+        i += 1
+    # a database registered through the module definition its own code file compiles in (file identifier, index range)
+    for name in sorted(x for x in os.listdir(REAL_DIR) if x.endswith(".in") and os.path.exists(os.path.join(REAL_DIR, x + ".range"))):
+        plans.append({"id": i, "focus": "C20", "build": "san", "universe": {"real": [name]}, "faults": {},
+                      "ops": [{"op": "reg_mod", "lib": 0, "range": "generated", "ident": "match"}, {"op": "flag"}, {"op": "verify", "sweep": True}]})
         i += 1
     # every database written by the real interrogate, alone: totality sweep, counts vs entries (no phantom entries)
     for name in sorted(x for x in os.listdir(REAL_DIR) if x.endswith(".in")):
